@@ -1,5 +1,6 @@
 """Sidecar contracts for `omega.steps` (C19)."""
 import itertools
+import copy
 import random
 
 import z3
@@ -351,7 +352,8 @@ def stepper_on_implementations(seed, n_games):
         n = built = 0
         for g in range(n_games):
             de, ds = rnd.choice([(dict(x='bool'), dict(y='bool')), (dict(x='bool'), dict(y=(0, 2))),
-                                 (dict(x=(0, 2)), dict(y='bool'))])
+                                 (dict(x=(0, 2)), dict(y='bool')), (dict(x='bool'), dict(y=(-3, -1))),
+                                 (dict(x=(-2, -1)), dict(y=(-1, 1)))])
             moore, plus_one = rnd.choice([(True, True), (True, False), (False, True), (False, False)])
             aut = gm.make_game(rnd, de, ds, moore, plus_one, r'\A \E', 1, rnd.choice([1, 2]))
             try:
@@ -367,8 +369,15 @@ def stepper_on_implementations(seed, n_games):
             impl = aut.action['impl']
             allv = list(de) + list(ds) + ['_goal']
             shared = dict()       # ONE dict object, updated in place between calls
-            for st in list(aut.pick_iter(aut.true, allv))[:40]:
-                for xp in aut.pick_iter(aut.true, [v + "'" for v in de]):
+            den_ = denote.Den(aut.vars, lambda b: None)
+
+            def values(names):
+                # independent of the library's own enumeration: every representable value
+                doms = [[False, True] if aut.vars[v]['type'] == 'bool'
+                        else list(range(den_.limits(v.rstrip("'"))[0], den_.limits(v.rstrip("'"))[1] + 1)) for v in names]
+                return [dict(zip(names, vs)) for vs in itertools.product(*doms)]
+            for st in values(allv)[:40]:
+                for xp in values([v + "'" for v in de]):
                     n += 1
                     state = dict(st)
                     if not moore:
@@ -389,7 +398,10 @@ def stepper_on_implementations(seed, n_games):
                             continue
                         full = dict(state)
                         full.update({k + "'": v for k, v in r.items()})
-                        ok = set(r) >= set(aut.varlist['impl']) and aut.let(full, impl) == aut.true
+                        try:
+                            ok = set(r) >= set(aut.varlist['impl']) and aut.let(full, impl) == aut.true
+                        except AssertionError:
+                            ok = False        # a returned value is not representable
                         if not ok and len(fails) < 5:
                             fails.append(dict(name='stepper returns next values for all implementation variables satisfying the action',
                                               state=str(state), returned=str(r)))
@@ -398,6 +410,11 @@ def stepper_on_implementations(seed, n_games):
                             fails.append(dict(name='stepper returns values whenever the action is enabled', state=str(state)))
             i0 = stp.init()
             n += 1
+            try:
+                aut.let(i0, aut.init['impl'])
+            except AssertionError:
+                fails.append(dict(name='stepper initial values satisfy the initial condition', init=str(i0), note='a value is not representable'))
+                continue
             if not set(i0) <= set(aut.varlist['impl']) or aut.exist(
                     [v for v in allv if v not in i0], aut.let(i0, aut.init['impl'])) != aut.true:
                 fails.append(dict(name='stepper initial values satisfy the initial condition', init=str(i0)))
@@ -474,6 +491,48 @@ def symbolic_assembly_check():
                                 fails.append(dict(name='every recorded step of the assembly satisfies every component\'s action (symbolic steppers, Moore and Mealy)',
                                                   order=str(order), env=ek, ctl=act, moore=moore, step=i, state=str(a), next=str(b)))
                             break
+        # a component that is NOT the first one refuses its step (ValueError): the
+        # failed step leaves no trace in the recorded behaviour
+        class _Blocked:
+            def __init__(self, after):
+                self.vars = dict(q=1)
+                self.after = after
+                self.k = 0
+
+            def init(self):
+                return dict(q=0)
+
+            def step(self, state):
+                self.k += 1
+                if self.k > self.after:
+                    raise ValueError('action disabled')
+                return dict(q=(state['q'] + 1) % 2)
+        for first in ('env', 'blk'):
+            for after in (0, 2):
+                n += 1
+                asm = steps.Assembly()
+                ms = dict(env=make_env('toggle'), blk=_Blocked(after))
+                for nm in ([first] + [k for k in ms if k != first]):
+                    asm.machines[nm] = ms[nm]
+                try:
+                    asm.init()
+                    for _ in range(after):
+                        asm.step()
+                    before = (copy.deepcopy(asm.state), copy.deepcopy(list(asm.past)))
+                    try:
+                        asm.step()
+                        fails.append(dict(name='a step that a component refuses is refused by the assembly', first=first, after=after))
+                        continue
+                    except ValueError:
+                        pass
+                    now = (asm.state, list(asm.past))
+                    full = asm.state is not None and set(asm.state) >= {'x', 'q'}
+                    if (now != before or not full) and len(fails) < 6:
+                        fails.append(dict(name='a step refused by a component leaves the recorded behaviour as it was (no partial state, no extra entry)',
+                                          first=first, after=after, state_before=str(before[0]), state_after=str(asm.state),
+                                          recorded_before=len(before[1]), recorded_after=len(asm.past)))
+                except (AssertionError, KeyError) as e:
+                    fails.append(dict(name='assembly with a refusing component runs', error=repr(e)[:200]))
         return dict(records=[], stats=dict(), functions={
             'omega.steps.Assembly.step': dict(source_lines=0, cut={}, stubs=[], dropped='run natively with real steppers: bounded'),
             'omega.steps.AutomatonStepper.step': dict(source_lines=0, cut={}, stubs=[], dropped='run natively: bounded')},
